@@ -31,6 +31,7 @@ func Pick(site string, i, n int) int   { return i }
 func At(site string, detail ...string) {}
 func NoYield(delta int)                {}
 func Probe(name string)                {}
+func Label(name string)                {}
 func WrapUnlock(site string, res any, unlock func(), err error) (func(), error) {
 	return unlock, err
 }
